@@ -769,4 +769,3 @@ func eventsOf(objs []client.Object) []Event {
 	return out
 }
 
-var _ = apiv1.Namespace{}
